@@ -1,7 +1,7 @@
 """C12 - no mutation while iterating; released when iteration ends (structural clauses)."""
 import re
 
-from kern import CallGraph, branch_edges, calls_by_name, callers, origins, outcome_edges, short_fn, top_fn
+from kern import CallGraph, branch_edges, calls_by_name, calls_to, callers, origins, outcome_edges, short_fn, top_fn
 
 DESCRIPTION = ("C12 clauses decided: R1 every structured loop exit (exhaustion, break, continue-exhaustion, return) "
                "reaches iter_stop (must-pass-through on the MIR of the 4 handlers and dominance in the return emitter); "
@@ -21,7 +21,7 @@ def r1_exits(ctx, F):
     for name in ("InstrIter", "InstrContinue"):
         f = handler(F, name)
         nxt = calls_by_name(f, TRAMP % "iter_next")
-        stop = calls_by_name(f, TRAMP % "iter_stop")
+        stop = calls_to(F, f, TRAMP % "iter_stop")
         if len(nxt) != 1:
             ctx.bad("C12.R1", name + ":anchor", "anchor-missing: iter_next call not found", fn=f)
             continue
@@ -46,14 +46,14 @@ def r1_exits(ctx, F):
                   "becomes possible)", fn=f)
     for name in ("InstrBreak", "InstrIterStop"):
         f = handler(F, name)
-        stop = calls_by_name(f, TRAMP % "iter_stop")
+        stop = calls_to(F, f, TRAMP % "iter_stop")
         good = bool(stop) and f.must_pass_from_entry([c.bb for c in stop], f.returns())
         ctx.check(good, "C12.R1", name + ":always-stops", "iter_stop is called on every normal path",
                   "a path through the handler skips iter_stop (container stays locked after break/return)", fn=f)
 
     # return emission
     wr = F.one(r"IrSpanned<eval::compiler::stmt::StmtCompiled>>::write_return$")
-    wis = calls_by_name(wr, r"BcWriter::<'f>::write_iter_stop$")
+    wis = calls_to(F, wr, r"BcWriter::<'f>::write_iter_stop$")
     emit_re = re.compile(r"write_instr(_ret_arg)?::<eval::bc::instr_impl::InstrReturn\w*>")
     sites = []
     for f in F.fns.values():
@@ -221,15 +221,19 @@ def r4_raii(ctx, F):
         r"<values::iter::StarlarkIterator<'v> as std::iter::Iterator>::next$",
         r"<values::iter::StarlarkIterator<'v> as std::ops::Drop>::drop$",
     ]
+    from kern import unexpected_callers
     n = 0
     for op in ("iterate", "iter_stop"):
-        for f, c in callers(F, TRAMP % op):
-            n += 1
+        bad, k = unexpected_callers(F, TRAMP % op, lambda t: any(re.search(a, t.qpath) for a in allowed))
+        n += k
+        for f, c in bad:
             t = top_fn(F, f)
-            ctx.check(any(re.search(a, t.qpath) for a in allowed), "C12.R4", "raw-%s:%s" % (op, t.qpath),
-                      "raw %s trampoline used by an instruction handler or the RAII iterator" % op,
-                      "raw `%s` trampoline called outside the instruction handlers / StarlarkIterator: the "
-                      "acquire/release pairing is no longer guaranteed by construction" % op, fn=f, line=c.line)
+            ctx.bad("C12.R4", "raw-%s:%s" % (op, short_fn(t.qpath)),
+                    "raw `%s` trampoline called outside the instruction handlers / StarlarkIterator (`%s`): the "
+                    "acquire/release pairing is no longer guaranteed by construction" % (op, t.qpath), fn=f, line=c.line)
+        if not bad:
+            ctx.ok("C12.R4", "raw-%s" % op, "raw %s trampoline used only by the handlers and the RAII iterator (%d sites)"
+                   % (op, k))
     ctx.floor("C12.R4", "raw iterate/iter_stop call sites", n, 8, inventory=True)
     # RAII: StarlarkIterator::next stops on exhaustion, Drop stops otherwise
     nx = F.one(r"<values::iter::StarlarkIterator<'v> as std::iter::Iterator>::next$")
